@@ -31,9 +31,9 @@ void harness(void)
   /* ---- reference reader (from the manual: logical line = physical lines joined at a trailing backslash) ---- */
   while (1)
   {
-    int terminated = 0;
+    int terminated = 0; unsigned ls = rl;                      /* start of this physical line in the joined text */
     while (pos < in_len) { unsigned char c = in_file[pos++]; if (c == '\n') { terminated = 1; break; } ref[rl++] = (char)c; }
-    if (terminated && rl > 0 && ref[rl - 1] == '\r') rl--;     /* CR-LF line end */
+    if (terminated && rl > ls && ref[rl - 1] == '\r') rl--;    /* CR-LF line end: a CR of THIS physical line directly before its LF */
     reflines++;
     if (rl > 0 && ref[rl - 1] == 26) rl--;                     /* trailing ^Z */
     if (rl > 0 && ref[rl - 1] == '\\') rl--; else break;       /* continuation */
